@@ -254,7 +254,7 @@ def construct(b):
 
 
 DERIVS = ('iloc', 'drop', 'roll', 'sort', 'relabel', 'union', 'intersection', 'difference', 'level_add', 'level_drop', 'level_drop_inner',
-          'flat', 'astype', 'copy', 'togo', 'tostatic', 'pickle', 'rename', 'append', 'append_dup', 'extend', 'loc_list')
+          'flat', 'astype', 'copy', 'togo', 'tostatic', 'pickle', 'rename', 'append', 'append_dup', 'extend', 'loc_list', 'rehierarch')
 
 
 @st.composite
@@ -402,6 +402,19 @@ def _check(case):
             if depth > 1 and not want:
                 continue
             new_model = [next(m for m in model if eq(canon(m), g)) for g in got]
+        elif d == 'rehierarch':
+            if depth == 1 or n == 0:
+                continue
+            # the depths in another order; the labels are regrouped so that the new outer depth is contiguous
+            order = list(range(depth))[::-1] if dv['flag'] else (list(range(1, depth)) + [0])
+            want = [tuple(m[q] for q in order) for m in model]
+            r = lib(lambda: ix.rehierarch(order))
+            if isinstance(r, Raised):
+                raise Failure('raised:%s' % r.cls, 'rehierarch(%r) raised %r' % (order, r.exc), r.where)
+            got = obs.labels_of(r)
+            if not same_multiset(got, [canon(x) for x in want]):
+                raise Failure('set', 'rehierarch(%r): labels %s expected (as a set) %s' % (order, short(got), short(want)))
+            new_model = [next(w for w in want if eq(canon(w), g)) for g in got]
         elif d == 'level_add':
             new_model = [(('L',) + tuple(m)) if depth > 1 else ('L', m) for m in model]
             if n == 0 or (depth == 1 and any(isinstance(m, tuple) for m in model)):
